@@ -41,6 +41,9 @@ type e4Config struct {
 	PingDelayMs int `json:"pingDelayMs,omitempty"`
 	// OnErrorCalls: the OnError callback reads the client's statistics and current BaseClient (an application logging them)
 	OnErrorCalls bool `json:"onErrorCalls,omitempty"`
+	// StateHandle: the application registers its handler from the ConnState callback when a connection becomes Active
+	// (the usual on-connect pattern), under a new handler number 300+connection
+	StateHandle bool `json:"stateHandle,omitempty"`
 	// StateCalls: the application's ConnState callback looks at the client (Err, Done, Stats) from inside the callback
 	StateCalls bool `json:"stateCalls,omitempty"`
 	// AppPingOnSilence: as soon as a peer goes silent the application itself calls Ping without a deadline (a health probe)
@@ -501,6 +504,12 @@ func e4RunBody(c e4Case, started chan<- *e4Env) (res *e4Result) {
 		}
 	}
 	d.onState = func(conn int, st ConnState, err error) {
+		if st == StateActive && c.Cfg.StateHandle && e.cli != nil {
+			n := 300 + conn
+			log.add(0, "HANDLE-START", nil, fmt.Sprintf("handler=%d from-state-callback", n))
+			e.cli.Handle(e.handler(n))
+			log.add(0, "HANDLE", nil, fmt.Sprintf("handler=%d", n))
+		}
 		if st == StateActive {
 			atomic.AddInt64(&e.active, 1)
 		}
